@@ -30,7 +30,9 @@ TRUSTED = [
 ASSUMPTIONS = [
     'accepted normalisations (fixed): HDF5 returns text as ASCII bytes; FITS upper-cases HDU names and returns BLANK-masked integer images as float with NaN; '
     'CSV re-infers dtypes (and an empty column has no dtype); FITS stores integers/floats big-endian',
-    'domain: float (float32/float64, dyadic values, NaN), integer (int16/32/64) and clearly non-numeric ASCII text columns without leading/trailing blanks; '
+    'domain: float (float32/float64, dyadic values, NaN), integer (int16/32/64) and clearly non-numeric text columns without leading/trailing blanks, ASCII and non-ASCII '
+    '(Latin-1, Greek, CJK, emoji, combining marks); text is preserved up to the format\'s encoding: HDF5 = ASCII with one ? per other code point (as the exporter writes today, the column must '
+    'still come back), CSV / VO table = unchanged, FITS table = ASCII only (see known findings); '
     'the empty string is not generated: it is not clearly non-numeric text - CSV and astropy\'s FITS-table reader treat it as a missing value (the FITS-table factory then shows it as the text nan); column names are lower-case identifiers every format accepts',
     'table formats (CSV, FITS table, VO table) are exercised with 1-d data; HDF5 with 1-d, 2-d and 3-d data; gridded FITS with 1-d, 2-d, 3-d data',
     'for gridded FITS, which writes one HDU per component and is read back as one dataset per HDU, "order" is the order of the returned datasets',
@@ -86,14 +88,15 @@ def make_data(case):
 class Tokens(object):
     """values -> integer tokens of the model: ints as themselves, floats as eighths (NaN special), text as table index ('' = 0)"""
 
-    def __init__(self):
+    def __init__(self, fmt=None):
         self.strings = {'': 0}
+        self.fmt = fmt
 
     def tok(self, v):
         if isinstance(v, (bytes, np.bytes_)):
             v = v.decode('ascii')
         if isinstance(v, (str, np.str_)):
-            v = str(v)
+            v = text_as_format(self.fmt, str(v))
             if v not in self.strings:
                 self.strings[v] = len(self.strings)
             return self.strings[v]
@@ -108,6 +111,20 @@ class Tokens(object):
 
     def toks(self, arr):
         return [self.tok(v) for v in np.asarray(arr).ravel().tolist()]
+
+
+def ascii_replace(v):
+    """what hdf5_writer does to text today: np.char.encode(values, encoding='ascii', errors='replace') - one '?' per non-ASCII code point"""
+    return v.encode('ascii', 'replace').decode('ascii')
+
+
+def text_as_format(fmt, v):
+    """accepted per-format normalisation of a text cell: HDF5 stores ASCII with '?' replacement; CSV, VO table (and FITS table for ASCII text) keep the text as it is"""
+    return ascii_replace(v) if fmt == 3 else v
+
+
+def is_ascii(v):
+    return all(ord(ch) < 128 for ch in v)
 
 
 def kind_of(arr):
@@ -134,6 +151,17 @@ def model_line(case, d, tk):
         blank = int(np.iinfo(ints[0]).min)
     m = (0, []) if case.get('mask') is None else (1, [1 if b else 0 for b in case['mask']])
     return enc((1, [case['fmt'], len(case['shape']), m, blank, (0, cols)])), nid
+
+
+def selected_text_non_ascii(case):
+    """is there a non-ASCII character in a text cell that the export has to write (selected rows of text columns)?"""
+    m = case.get('mask')
+    for name, kind, dtype, vals in case['cols']:
+        if kind == 2:
+            for i, v in enumerate(vals):
+                if (m is None or m[i]) and not is_ascii(v):
+                    return True
+    return False
 
 
 def blank_ok(case):
@@ -192,6 +220,10 @@ def same_values(kind, got, want, mask, rows, fmt):
     got = np.asarray(got)
     if got.dtype.kind == 'S':
         got = np.char.decode(got, 'ascii')
+    if want.dtype.kind == 'U' and fmt == 3:
+        # text preserved up to the format's encoding: the HDF5 exporter writes ASCII, '?' for every other character;
+        # the column itself must come back, in place, with every row
+        want = np.array([ascii_replace(str(v)) for v in want.ravel().tolist()], dtype=want.dtype).reshape(want.shape)
     if rows:
         w = want if mask is None else want[mask]
         if got.shape != w.shape:
@@ -297,7 +329,7 @@ def judge(case, cols, exp, mask, rows):
 def run_case_impl(R, case, idx, session=False):
     """returns dict(model_line, written, oracle problems [(text, key)], nid) ; raises nothing"""
     res = {'problems': [], 'line': None, 'written': None}
-    tk = Tokens()
+    tk = Tokens(case['fmt'])
     try:
         d, dc, obj = make_data(case)
     except Exception as e:
@@ -311,7 +343,10 @@ def run_case_impl(R, case, idx, session=False):
     try:
         exporters()[FMT_LABEL[fmt]](path, obj)
     except Exception as e:
-        res['problems'].append(('exporter raised %s: %s' % (type(e).__name__, e), None))
+        key = None
+        if fmt == 1 and isinstance(e, UnicodeEncodeError) and selected_text_non_ascii(case):
+            key = 'fits-table-non-ascii-text-export-raises'
+        res['problems'].append(('exporter raised %s: %s' % (type(e).__name__, e), key))
         return res
     try:
         res['written'] = written(case, path, obj, tk, nid)
@@ -409,13 +444,25 @@ def compare_model(case, res, out):
 
 
 # ---------------------------------------------------------------------- generators
-def rand_text(rng, allow_empty=False):
+NON_ASCII = ['\u00e9', '\u00fc', '\u00f1', '\u00df', '\u00d8',              # Latin-1 letters
+             '\u03b1\u03b2', '\u03a9', '\u03bb',                                # Greek
+             '\u6f22\u5b57', '\u65e5',                                           # CJK
+             '\U0001f600', '\U0001f680',                                          # emoji (outside the BMP)
+             'e\u0301', 'n\u0303']                                                # combining marks
+
+
+def rand_text(rng, allow_empty=False, unicode=False):
     n = rng.randrange(2, 5)
     s = ''.join(rng.choice(LETTERS) for _ in range(n))
     if rng.random() < 0.25:
         s = s[:1] + ' ' + s[1:]
     if rng.random() < 0.3:
         s = s.capitalize()
+    if unicode and rng.random() < 0.5:
+        # non-ASCII characters mixed into otherwise ASCII text (never first/last blank, still clearly non-numeric)
+        for _ in range(rng.randrange(1, 3)):
+            k = rng.randrange(0, len(s) + 1)
+            s = s[:k] + rng.choice(NON_ASCII) + s[k:]
     return s
 
 
@@ -429,7 +476,8 @@ def rand_col(rng, name, n, fmt, int_dtype):
         lo, hi = (-300, 300) if int_dtype == 'int16' else (-100000, 100000)
         vals = [rng.choice([0, 0, 1, -1, rng.randrange(lo, hi)]) for _ in range(n)]
         return (name, 1, int_dtype, vals)
-    vals = [rand_text(rng) for _ in range(n)]
+    uni = rng.random() < 0.4        # a column with non-ASCII cells next to plain ASCII ones
+    vals = [rand_text(rng, unicode=uni) for _ in range(n)]
     return (name, 2, 'U%d' % max(1, max(len(v) for v in vals) if vals else 1), vals)
 
 
@@ -484,12 +532,21 @@ def exhaustive_cases(R):
     n = R.pick(3, 4)
     base = [('zeta', 0, 'float64', [1.5, None, -2.25, 8.0][:n]), ('alpha', 1, 'int32', [3, 0, -7, 12][:n]), ('m1', 2, 'U3', ['bq', 'K d', 'xz', 'pp'][:n])]
     out = []
+    # the same table with non-ASCII text (Latin-1 + blank, CJK, emoji, one plain ASCII cell), and that text as the only column
+    utext = ('m1', 2, 'U4', ['bq', 'K\u00e4 d', '\u6f22z', 'x\U0001f600'][:n])
+    ubase = [base[0], base[1], utext]
     for fmt in range(5):
         shapes = [(n,)] if fmt < 3 else [(n,), (1, n)] + ([(2, 2)] if n == 4 else [])
         for shape in shapes:
             for bits in itertools.product([False, True], repeat=n):
                 out.append({'fmt': fmt, 'shape': list(shape), 'cols': list(base), 'derived': ('b_2', 0), 'mask': list(bits)})
+                out.append({'fmt': fmt, 'shape': list(shape), 'cols': list(ubase), 'derived': ('b_2', 0), 'mask': list(bits)})
+                if fmt != 4:
+                    out.append({'fmt': fmt, 'shape': list(shape), 'cols': [utext], 'derived': None, 'mask': list(bits)})
             out.append({'fmt': fmt, 'shape': list(shape), 'cols': list(base), 'derived': ('b_2', 1), 'mask': None})
+            out.append({'fmt': fmt, 'shape': list(shape), 'cols': list(ubase), 'derived': ('b_2', 1), 'mask': None})
+            if fmt != 4:
+                out.append({'fmt': fmt, 'shape': list(shape), 'cols': [utext], 'derived': None, 'mask': None})
         for perm in itertools.permutations(range(3)):
             out.append({'fmt': fmt, 'shape': [n], 'cols': [base[i] for i in perm], 'derived': None, 'mask': [True, False, True, True][:n]})
     return out
